@@ -333,6 +333,9 @@ func (sc *c16CKKS) runE2S(d *c16Deploy, ct *rlwe.Ciphertext) bool {
 		ctx.Fail("protocol", "ckks.ShareToEnc.GetEncryption", "GetEncryption failed: panic=%v %s %s err=%v", pk, site, msg, gerr)
 		return false
 	}
+	if !outputOwnsStorage(ctx, "ckks.ShareToEnc.GetEncryption", out, &crp) {
+		return false
+	}
 	rawOut := decryptRaw(params, out, d.ideal)
 	pickOut := make([]*big.Int, dsl)
 	for k := range pickOut {
@@ -625,6 +628,9 @@ func (sc *c16CKKS) runRefresh(d *c16Deploy, ct *rlwe.Ciphertext, m []*bignum.Com
 	}
 	if terr != nil {
 		ctx.Fail("protocol", name+".Transform|error", "Transform failed on valid inputs (ct level %d, e2s level %d, output level %d): %v", level, e2sLevel, outLevel, terr)
+		return false
+	}
+	if !outputOwnsStorage(ctx, name+".Transform", out, &crp) {
 		return false
 	}
 	ctx.Event("%s ct-level=%d e2s-level=%d out-level=%d n=%d f=%s", name, level, e2sLevel, outLevel, d.n, desc)
